@@ -189,9 +189,12 @@ def run_batch(ctx, kind, seed, muts, aux=(), label="", expect_err_on_truncate=Fa
     total = len(muts)
     st = ctx.stats
     guard = 0
+    stalls = 0
     while start < total and guard < 60:
         guard += 1
-        rec = ctx.call("fault.batch", kind, seedf, mutf, prog, start, work, *aux, limit=None, timeout=900)
+        # per-case stall limit: 20 x the CPU budget of the largest possible case (2 s + 20 s/MiB), at least 40 s of CPU time
+        stall = max(40.0, 20 * (2.0 + 20.0 * (len(seed) + (1 << 20) * 0.07) / (1 << 20)))
+        rec = ctx.call("fault.batch", kind, seedf, mutf, prog, start, work, *aux, limit=None, timeout=900, progress=prog, case_cpu_s=stall)
         st.monitor["fault_batches"] += 1
         if rec.outcome == "ok":
             v = rec.value
@@ -251,6 +254,11 @@ def run_batch(ctx, kind, seed, muts, aux=(), label="", expect_err_on_truncate=Fa
             files = save_case(ctx, seed, muts[case]) if case < total else []
             if rec.outcome == "timeout":
                 ctx.inconclusive("watchdog in fault batch %s case %d" % (kind, case))
+            elif rec.outcome == "abort:cpu-stall":
+                stalls += 1
+                ctx.violation("cpu", dict(kind="cpu", entry=entry), dict(cpu_s=rec.get("cpu_s"), stall_limit_s=stall, note="case did not finish; worker killed on CPU time",
+                                                                     case=dict(offset=o, width=w, value=val, operator=cls, seed_len=len(seed)), label=label),
+                              files=files, commands=[dict(verb="fault.batch", args=[kind, files[0], files[1], prog, 0, work] + list(aux), skew=(case + rec.get("skew", 0)) % 4)] if files else None)
             else:
                 what = rec.outcome[6:]
                 site, text = "", ""
@@ -265,6 +273,10 @@ def run_batch(ctx, kind, seed, muts, aux=(), label="", expect_err_on_truncate=Fa
                               files=files, commands=[dict(verb="fault.batch", args=[kind, files[0], files[1], prog, 0, work] + list(aux), skew=(case + rec.get("skew", 0)) % 4)])
             st.evaluations += case - start + 1
             start = case + 1
+            if stalls >= 3:
+                # the verdict is in; every further stalled case would cost its full stall limit again
+                ctx.note("fault batch abandoned after 3 stalled cases (%s)" % kind)
+                break
             continue
         ctx.inconclusive("fault batch: unexpected outcome %s %s" % (rec.outcome, str(rec.value)[:100]))
         break
